@@ -311,7 +311,7 @@ func TestC14Elections(t *testing.T) {
 					if ok, why := eligible(n, node.RoleComputeWorker); !ok {
 						fail("committee-ineligible", "epoch %d: committee member %s not eligible: %s", capEpoch, m.PublicKey, why)
 					}
-					ad := rt.ActiveDeployment(capEpochT(capEpoch))
+					ad := activeDeployment(rt, capEpoch)
 					if ad == nil || n.GetRuntime(rt.ID, ad.Version) == nil {
 						fail("committee-ineligible", "epoch %d: committee member %s is not registered for the runtime's active version", capEpoch, m.PublicKey)
 					}
@@ -332,7 +332,7 @@ func TestC14Elections(t *testing.T) {
 				}
 				// scheduling constraints: per-entity cap among the members, and the candidate pool AFTER the per-entity cap
 				// (and validator-set filter) must reach the configured minimum for a committee to exist at all
-				ad := rt.ActiveDeployment(capEpochT(capEpoch))
+				ad := activeDeployment(rt, capEpoch)
 				for _, role := range []scheduler.Role{scheduler.RoleWorker, scheduler.RoleBackupWorker} {
 					cs := rt.Constraints[scheduler.KindComputeExecutor][role]
 					perEnt := map[signature.PublicKey]int{}
@@ -410,4 +410,19 @@ func tail(s []string, n int) []string {
 		return s[len(s)-n:]
 	}
 	return s
+}
+
+// activeDeployment is the harness's own reading of "the deployment a committee member must run": among the
+// deployments that are valid at the epoch (ValidFrom <= epoch) the one that became valid last.
+func activeDeployment(rt *registry.Runtime, epoch uint64) *registry.VersionInfo {
+	var best *registry.VersionInfo
+	for _, d := range rt.Deployments {
+		if d == nil || uint64(d.ValidFrom) > epoch {
+			continue
+		}
+		if best == nil || d.ValidFrom > best.ValidFrom {
+			best = d
+		}
+	}
+	return best
 }
